@@ -173,7 +173,14 @@ def render(pieces, e, mode, sb, h_override=None):
             try:
                 v = directive_value(d, e, mode, sb, h_override)
             except NotJudged:
-                out.append(("any", width or 0))
+                # (bounded by what the value can possibly be: some rendering of the path or of the link's target)
+                longest = len(os.fsencode(e.path)) + len(sb) + 8
+                if stat.S_ISLNK(e.lst.st_mode):
+                    try:
+                        longest = max(longest, len(os.fsencode(os.readlink(os.path.join(sb, e.path)))) + 8)
+                    except OSError:
+                        pass
+                out.append(("any", width or 0, (width or 0) + longest))   # (padding may count characters: bytes <= width + len)
                 continue
             if d == "m":
                 # leading zeros not judged: compare numerically
@@ -241,7 +248,8 @@ def match_stream(actual, pos, chunks, terminator):
         return None
     # wildcard
     lo = c[1] if len(c) > 1 else 0            # a padded field is at least `width` characters, hence bytes, long
-    for ext in range(lo, lo + 600):
+    hi = c[2] if len(c) > 2 else lo + 600
+    for ext in range(lo, hi + 1):
         if pos + ext > len(actual):
             break
         r = match_stream(actual, pos + ext, rest, terminator)
@@ -258,6 +266,13 @@ def build_tree(rng, sb):
              Node("r/hl3", "h", link_to="r/hl1"), Node("r/l_f1", "l", target="f1"), Node("r/l_sub", "l", target="sub"),
              Node("r/l_dang", "l", target="nowhere/x"), Node("r/l_fifo", "l", target="fifo"), Node("r/sub/l_up", "l", target="../f2"),
              Node("r/sub/é ü", "f", size=2), Node("r/sub/日本", "d"), Node("r/sub/日本/x", "f", size=9), Node("r/sub/sp ace", "f", size=1),
+             # values with a newline followed by more than a stdio buffer's worth of bytes (a link target; a path below a directory
+             # whose name has a newline): on real standard output they pass through a line-buffered writer in several pieces
+             Node("r/l_long", "l", target="t\n" + ("y" * 200 + "/") * 7 + "z"), Node("r/nl\nd", "d"),
+             Node("r/nl\nd/" + "p" * 200, "d"), Node("r/nl\nd/" + "p" * 200 + "/" + "q" * 220, "d"),
+             Node("r/nl\nd/" + "p" * 200 + "/" + "q" * 220 + "/" + "s" * 250, "d"),
+             Node("r/nl\nd/" + "p" * 200 + "/" + "q" * 220 + "/" + "s" * 250 + "/" + "t" * 250, "d"),
+             Node("r/nl\nd/" + "p" * 200 + "/" + "q" * 220 + "/" + "s" * 250 + "/" + "t" * 250 + "/" + "u" * 250, "f", size=4),
              Node("lr", "l", target="r/sub"), Node("lf", "l", target="r/f1"), Node("ldang", "l", target="r/none"), Node("file", "f", size=11, mode=0o604)]
     treegen.build(sb, nodes)
     return nodes
@@ -311,6 +326,7 @@ def worker(job):
             cases.append((cid, args))
             meta[cid] = (pieces, fmt, mode, roots, via, args)
         res = common.run_find_inproc(cases, wd, sb)
+        nbad = 0
         bin_ids = set(rng.sample(sorted(meta), min(len(meta), max(2, len(meta) // 25))))
         for cid, (pieces, fmt, mode, roots, via, args) in meta.items():
             r = res[cid]
@@ -384,6 +400,9 @@ def worker(job):
                     bad = {"entry": None, "expected": b"<end of output>", "observed": actual[pos:pos + 200]}
                 if bad:
                     st.violate("render-mismatch", None, dict(bad, format=fmt, mode="-" + mode, roots=roots, via=vname, stderr=r.fd2[-200:]), rp)
+                    nbad += 1
+            if nbad >= 40:
+                break                         # a tree that is wrong everywhere: enough witnesses (a failed match is the expensive case)
         # identity runs (no oracle): %p\0%H\0%P\0 per entry
         for mode in "PHL":
             for roots in ROOT_SETS:
